@@ -160,7 +160,9 @@ def targeted(language):
     out = []
     deep = 1500
     if language == "Python":
-        out += ["def f(", "def f(a, b", "def f()", "def f():", "def f():\n", "async def", "def", "def f(a=\"(\"):\n    pass",
+        out += ["def f():\n    \"\"\"Summary.\n\n    Description after an empty line.\n\n\n    More.\n    \"\"\"\n",
+                "class A:\n    def m(self):\n        '''doc\n\n        '''\n\n    def n(self):\n        '''\n\n\n        x'''\n",
+                "def f(", "def f(a, b", "def f()", "def f():", "def f():\n", "async def", "def", "def f(a=\"(\"):\n    pass",
                 "def f(:\n    pass\n", "def f(a):\n\tx\n        y\n", "class A:\n  def f(self):\n   pass\n def g(): pass\n",
                 "def f():\n    '''\n    doc", "def f(x=(1,(2,(3,\n", "\\\n", "def f(a):\\\n    pass\n", "x = '''\ndef f():\n    pass\n'''\n",
                 "def f():\n" + "".join("    " * (i + 1) + f"def g{i}():\n" for i in range(120)) + "    " * 121 + "pass\n",
